@@ -22,7 +22,7 @@ def mk_env():
         "class K:\n    def m(self, x=0):\n        a = x\n        return a\n\n"
         "k = K()\n", "verif_c18")
     env = {"f": mod.f, "x": mod.g, "a": 3, "K": mod.K, "k": mod.k, "T": ptera.tag.T,
-           "every": tools.every}
+           "every": tools.every, "zero": 0, "no": False, "empty": ""}
     return mod, env
 
 
@@ -63,7 +63,9 @@ def strip_msg(r):
 
 
 def mutate(rng, s):
-    toks = selcorr.ALPHABET + ["(", ")", ",", ">", "!", " as ", "="]
+    toks = selcorr.ALPHABET + ["(", ")", ",", ">", "!", " as ", "=",
+                               # compound fragments: operands that are themselves bracketed lists / calls
+                               "(f, a)", "(f)", "(f, a)(x)", "(a)(x)", ")(", "()", "f()(a)", "(f > a)", "(x, a)"]
     s = list(s)
     for _ in range(rng.randrange(1, 4)):
         k = rng.choice(["del", "ins", "rep", "dup"])
@@ -87,6 +89,14 @@ DEFECTIVE = [
     ("f(#loopy) > a", False, "unknown meta-variable"),
     ("f > a:a", False, "category that is not a tag"),
     ("f(x:a) > a", False, "category that is not a tag"),
+    ("f:0 > a", False, "category that is not a tag (a falsy constant)"),
+    ("f:'' > a", False, "category that is not a tag (a falsy constant)"),
+    ("f:zero > a", False, "category that is not a tag (a name bound to 0)"),
+    ("f:no > a", False, "category that is not a tag (a name bound to False)"),
+    ("f:empty > a", False, "category that is not a tag (a name bound to '')"),
+    ("f > a:0", False, "category that is not a tag (a falsy constant)"),
+    ("f(x:zero) > a", False, "category that is not a tag (a name bound to 0)"),
+    ("x > f:0(x) > a", False, "category that is not a tag (a falsy constant, on a nested call)"),
     ("nope > a", False, "unresolvable function name"),
     ("f > nope > a", False, "unresolvable function name"),
     ("K.nope > a", False, "unresolvable function name"),
@@ -116,6 +126,9 @@ def run(chk):
     for _ in range(3000 if chk.tier == "quick" else 60000):
         base = selcorr.gen_call(rng, rng.randrange(0, 3), True)
         strs.append(mutate(rng, base) if rng.random() < 0.8 else selcorr.respace(rng, base))
+    # call syntax applied to bracketed operands (too long for the exhaustive part)
+    strs += ["(f, a)(x)", "(f, a)()", "f > (a, f)(x)", "f((a, f)(x), !a)", "(f)(x)", "f((x, a))", "(a,f) > x",
+             "(f, a)(x) > x", "((f, a))(x)", "(f, a)(x, !a)", "(f > a)(x)", "f(x)(a)", "f()()"]
     n_mut = len(strs) - n_enum - n_rand
     chk.cov["rule"] = (
         "every string of <= %d tokens over the %d-token selector alphabet (exhaustive), %d random strings "
